@@ -392,8 +392,15 @@ class IndentationFitter(object):
         # the object that the user passed to `fit_model`).
         params_initial = copy.deepcopy(self.fp["params_initial"])
         # modify contact point with gcf_k
-        cpi = params_initial["contact_point"].value
-        params_initial["contact_point"].set(value=cpi * self.fp["gcf_k"])
+        cp_init = params_initial["contact_point"]
+        cp_expr = cp_init.expr
+        if cp_expr is None:
+            cp_init.set(value=cp_init.value * self.fp["gcf_k"])
+        else:
+            # The contact point is constrained by an expression (setting
+            # a value would remove the constraint): scale the expression.
+            cp_init.set(expr="({})*{!r}".format(cp_expr,
+                                                float(self.fp["gcf_k"])))
         weight_cp = self.fp["weight_cp"]
 
         # boolean array indexing the segment
@@ -435,7 +442,12 @@ class IndentationFitter(object):
             fit_res[segid] = md.residual(fit.params, xseg, yseg, weight_cp)
             # inverse contact point correction with gcf_k
             cpf = fit.params["contact_point"].value
-            fit.params["contact_point"].set(value=cpf / self.fp["gcf_k"])
+            if cp_expr is None:
+                fit.params["contact_point"].set(
+                    value=cpf / self.fp["gcf_k"])
+            else:
+                # report the original constraint (in measured units)
+                fit.params["contact_point"].set(expr=cp_expr)
             # add fit results to fp dictionary
             self.fp.update({"params_fitted": fit.params,
                             "chi_sqr": fit.chisqr,
